@@ -165,6 +165,7 @@ type normaliser struct {
 	baseline      map[string]bool // functions of the reviewed decomposition (never rewritten away)
 	splice        map[ast.Stmt][]ast.Stmt
 	failedRewrite bool
+	initRanges    [][2]token.Pos // function literals in package-level variable initialisers (the table builders)
 	changed       map[*ast.File]bool
 	log           []string
 }
@@ -196,6 +197,7 @@ func (nz *normaliser) findTables() {
 		local bool
 	}
 	var cands []candT
+	nz.initRanges = nil
 	for _, f := range nz.pkg.Syntax {
 		for _, d := range f.Decls {
 			if gd, ok := d.(*ast.GenDecl); ok && gd.Tok == token.VAR {
@@ -205,6 +207,41 @@ func (nz *normaliser) findTables() {
 						if cl, ok := vs.Values[0].(*ast.CompositeLit); ok {
 							cands = append(cands, candT{vs.Names[0], cl, false})
 						}
+					}
+					// the builders of the operator tables: straight-line code is what the table
+					// reconstruction reads, so loops over literal lists of names inside them are unrolled
+					for _, v := range vs.Values {
+						ast.Inspect(v, func(n ast.Node) bool {
+							if fl, ok := n.(*ast.FuncLit); ok {
+								nz.initRanges = append(nz.initRanges, [2]token.Pos{fl.Pos(), fl.End()})
+								ast.Inspect(fl.Body, func(m ast.Node) bool {
+									switch x := m.(type) {
+									case *ast.AssignStmt:
+										if x.Tok == token.DEFINE && len(x.Lhs) == 1 && len(x.Rhs) == 1 {
+											if id, ok := x.Lhs[0].(*ast.Ident); ok {
+												if cl, ok := x.Rhs[0].(*ast.CompositeLit); ok {
+													cands = append(cands, candT{id, cl, true})
+												}
+											}
+										}
+									case *ast.DeclStmt:
+										if gd, ok := x.Decl.(*ast.GenDecl); ok && gd.Tok == token.VAR {
+											for _, sp := range gd.Specs {
+												lvs := sp.(*ast.ValueSpec)
+												if len(lvs.Names) == 1 && len(lvs.Values) == 1 && !strings.HasPrefix(lvs.Names[0].Name, "_inl") {
+													if cl, ok := lvs.Values[0].(*ast.CompositeLit); ok {
+														cands = append(cands, candT{lvs.Names[0], cl, true})
+													}
+												}
+											}
+										}
+									}
+									return true
+								})
+								return false
+							}
+							return true
+						})
 					}
 				}
 			}
@@ -470,11 +507,26 @@ func (nz *normaliser) unrollIn(f *ast.File) {
 			return true
 		}
 		id, ok := rs.X.(*ast.Ident)
-		if !ok {
-			return true
+		var obj *types.Var
+		var tb *constTable
+		if ok {
+			obj, _ = nz.info.Uses[id].(*types.Var)
+			tb = nz.tables[obj]
+		} else if cl, isCL := rs.X.(*ast.CompositeLit); isCL && nz.inInitialiser(rs.Pos()) {
+			// `for _, name := range []string{"a", "b"} {` inside a table builder
+			if at, isArr := cl.Type.(*ast.ArrayType); isArr && len(cl.Elts) > 0 && len(cl.Elts) <= 256 {
+				okAll := true
+				for _, e := range cl.Elts {
+					if _, isKV := e.(*ast.KeyValueExpr); isKV || !nz.constantElt(e) {
+						okAll = false
+					}
+				}
+				if okAll {
+					tb = &constTable{elts: cl.Elts, elemT: at.Elt}
+					id = ast.NewIdent("literal list")
+				}
+			}
 		}
-		obj, _ := nz.info.Uses[id].(*types.Var)
-		tb := nz.tables[obj]
 		if tb == nil {
 			return true
 		}
@@ -605,7 +657,7 @@ func (nz *normaliser) unrollIn(f *ast.File) {
 		if usedEnd {
 			out = append(out, &ast.LabeledStmt{Label: ast.NewIdent(endLabel), Stmt: &ast.EmptyStmt{}})
 		}
-		if nz.local[obj] {
+		if obj != nil && nz.local[obj] {
 			out = append([]ast.Stmt{&ast.AssignStmt{Lhs: []ast.Expr{ast.NewIdent("_")}, Tok: token.ASSIGN, Rhs: []ast.Expr{ast.NewIdent(id.Name)}}}, out...)
 		}
 		c.Replace(&ast.BlockStmt{List: out})
@@ -613,6 +665,15 @@ func (nz *normaliser) unrollIn(f *ast.File) {
 		nz.log = append(nz.log, fmt.Sprintf("unrolled `range %s` (%d elements)", id.Name, len(tb.elts)))
 		return true
 	})
+}
+
+func (nz *normaliser) inInitialiser(p token.Pos) bool {
+	for _, r := range nz.initRanges {
+		if p >= r[0] && p < r[1] {
+			return true
+		}
+	}
+	return false
 }
 
 func rootIdent(e ast.Expr) *ast.Ident {
@@ -708,6 +769,7 @@ func preNormalise(orig, cur *packages.Package, base map[string][]byte, rep *inli
 			nz.containsLoopsIn(f)
 			nz.omapIteratorsIn(f)
 			nz.etaExpandIn(f)
+			nz.sinkDefersIn(f)
 		}
 		if len(nz.changed) == 0 {
 			// the aggregate rewrites work on fully typed trees of their own round
@@ -1636,4 +1698,157 @@ func (nz *normaliser) pureTablesIn(f *ast.File) {
 		}
 		return true
 	})
+}
+
+// ---- N8: a defer in a nested block that ends with a return ----
+//
+// In a helper that is not part of the reviewed decomposition,
+//
+//	if resp.StatusCode != 200 {
+//		defer resp.Body.Close()
+//		body, _ := io.ReadAll(resp.Body)
+//		return nil, fmt.Errorf("status %d: %s", resp.StatusCode, body)
+//	}
+//
+// runs the deferred call after the results have been computed and before the caller sees them.
+// The block is written that way: results into temporaries, the call, the return. (What differs
+// is the panic path only.) After this the helper has no defer left and can be inlined.
+func (nz *normaliser) sinkDefersIn(f *ast.File) {
+	for _, d := range f.Decls {
+		fd, ok := d.(*ast.FuncDecl)
+		if !ok || fd.Body == nil || nz.baseline[declKey(fd)] || fd.Name.Name == "main" || fd.Name.Name == "init" {
+			continue
+		}
+		var rtypes []ast.Expr
+		namedResults := false
+		if fd.Type.Results != nil {
+			for _, fld := range fd.Type.Results.List {
+				n := len(fld.Names)
+				if n > 0 {
+					namedResults = true
+				}
+				if n == 0 {
+					n = 1
+				}
+				for i := 0; i < n; i++ {
+					rtypes = append(rtypes, fld.Type)
+				}
+			}
+		}
+		if namedResults {
+			continue // a deferred call can observe / change named results
+		}
+		simple := func(e ast.Expr) bool {
+			okE := true
+			ast.Inspect(e, func(n ast.Node) bool {
+				switch n.(type) {
+				case nil, *ast.Ident, *ast.SelectorExpr, *ast.BasicLit, *ast.ParenExpr:
+				default:
+					okE = false
+				}
+				return okE
+			})
+			return okE
+		}
+		process := func(list []ast.Stmt) ([]ast.Stmt, bool) {
+			di := -1
+			for i, st := range list {
+				if _, isD := st.(*ast.DeferStmt); isD {
+					if di >= 0 {
+						return list, false
+					}
+					di = i
+				}
+			}
+			if di < 0 || len(list) < 2 {
+				return list, false
+			}
+			ret, isRet := list[len(list)-1].(*ast.ReturnStmt)
+			if !isRet || (len(ret.Results) != len(rtypes)) {
+				return list, false
+			}
+			ds := list[di].(*ast.DeferStmt)
+			if !simple(ds.Call.Fun) {
+				return list, false
+			}
+			for _, a := range ds.Call.Args {
+				if !simple(a) {
+					return list, false
+				}
+			}
+			roots := map[string]bool{}
+			ast.Inspect(ds.Call, func(n ast.Node) bool {
+				if id, ok := n.(*ast.Ident); ok {
+					roots[id.Name] = true
+				}
+				return true
+			})
+			for _, st := range list[di+1 : len(list)-1] {
+				bad := false
+				ast.Inspect(st, func(n ast.Node) bool {
+					switch x := n.(type) {
+					case *ast.ReturnStmt, *ast.BranchStmt, *ast.DeferStmt, *ast.FuncLit, *ast.GoStmt, *ast.LabeledStmt:
+						bad = true
+					case *ast.AssignStmt:
+						for _, l := range x.Lhs {
+							if id := rootIdent(l); id != nil && roots[id.Name] {
+								bad = true
+							}
+						}
+					case *ast.IncDecStmt:
+						if id := rootIdent(x.X); id != nil && roots[id.Name] {
+							bad = true
+						}
+					case *ast.UnaryExpr:
+						if x.Op == token.AND {
+							if id := rootIdent(x.X); id != nil && roots[id.Name] {
+								bad = true
+							}
+						}
+					}
+					return !bad
+				})
+				if bad {
+					return list, false
+				}
+			}
+			nz.n++
+			var out []ast.Stmt
+			out = append(out, list[:di]...)
+			out = append(out, list[di+1:len(list)-1]...)
+			var temps []ast.Expr
+			for k, e := range ret.Results {
+				name := fmt.Sprintf("_dfr%d_r%d", nz.n, k)
+				vs := &ast.ValueSpec{Names: []*ast.Ident{ast.NewIdent(name)}, Type: copyNode(rtypes[k]).(ast.Expr), Values: []ast.Expr{e}}
+				out = append(out, &ast.DeclStmt{Decl: &ast.GenDecl{Tok: token.VAR, Specs: []ast.Spec{vs}}})
+				temps = append(temps, ast.NewIdent(name))
+			}
+			out = append(out, &ast.ExprStmt{X: ds.Call}, &ast.ReturnStmt{Results: temps})
+			return out, true
+		}
+		did := false
+		ast.Inspect(fd.Body, func(n ast.Node) bool {
+			switch x := n.(type) {
+			case *ast.FuncLit:
+				return false
+			case *ast.BlockStmt:
+				if x != fd.Body {
+					if nl, ok := process(x.List); ok {
+						x.List = nl
+						did = true
+					}
+				}
+			case *ast.CaseClause:
+				if nl, ok := process(x.Body); ok {
+					x.Body = nl
+					did = true
+				}
+			}
+			return true
+		})
+		if did {
+			nz.changed[f] = true
+			nz.log = append(nz.log, "deferred call in a returning block of "+declKey(fd)+" placed before the return")
+		}
+	}
 }
